@@ -357,7 +357,11 @@ fn dump(c: &mut crate::engine::Cfb) -> Result<Dump, Fail> {
 
 fn open_bytes(bytes: &[u8], strict: bool) -> Result<std::io::Result<crate::engine::Cfb>, Fail> {
     let io = Io::from_bytes(bytes.to_vec());
-    guard("open", || open_options(None, strict).open_with(io))
+    // the validation mode must not depend on the other builder calls: the buffer size option
+    // is left out, set before strict() (odd sizes) or after it (even sizes)
+    // (small buffers make reading the multi-megabyte scenario images quadratic: those keep the default)
+    let mb = if bytes.len() > (1 << 20) { None } else { [None, Some(0u32), Some(4096), Some(1025), None, Some(1 << 20)][(fnv64(bytes) % 6) as usize] };
+    guard("open", || open_options(mb, strict).open_with(io))
 }
 
 fn mutate(img: &mut Vec<u8>, p: &Parsed, class: u8, wher: u16, val: u8) {
@@ -731,7 +735,7 @@ pub fn def() -> PropDef {
     PropDef {
         id: "C16",
         level: "exploration",
-        rule: "base image = synthesized foreign layout (incl. DIFAT sectors via surplus FAT sectors) or an image written by the library from a generated history. Direction A: 0-3 field/byte mutations (header reserved bytes, minor version, transaction signature, colours, metadata, sizes, V3 upper size bits, FAT cells of free sectors, name bytes, any byte); if open_strict accepts, open must accept and the two dumps (all entry fields, per-stream bytes or error kind) must be equal. Direction B: 1-3 of the 23 documented-deviation injectors applied at generated places, singly and combined; open must accept with the full dump equal to the model of the undamaged image, open_strict must reject; one case in eight is also written to a real file and opened through the path-based entry points (OpenOptions::open / open_rw with and without strict(), cfb::open, cfb::open_rw), which must agree with the in-memory ones. Non-trivial = (A) a mutated image that strict accepts and that has >=2 FAT sectors or a red node, or (B) >=2 deviations combined or a deviation on a foreign layout; distinct = distinct case JSON / image hash.",
+        rule: "base image = synthesized foreign layout (incl. DIFAT sectors via surplus FAT sectors) or an image written by the library from a generated history. Direction A: 0-3 field/byte mutations (header reserved bytes, minor version, transaction signature, colours, metadata, sizes, V3 upper size bits, FAT cells of free sectors, name bytes, any byte); if open_strict accepts, open must accept and the two dumps (all entry fields, per-stream bytes or error kind) must be equal. Direction B: 1-3 of the 23 documented-deviation injectors applied at generated places, singly and combined; open must accept with the full dump equal to the model of the undamaged image, open_strict must reject (both modes are built with max_buffer_size absent, set before or set after strict()); one case in eight is also written to a real file and opened through the path-based entry points (OpenOptions::open / open_rw with and without strict(), cfb::open, cfb::open_rw), which must agree with the in-memory ones. Non-trivial = (A) a mutated image that strict accepts and that has >=2 FAT sectors or a red node, or (B) >=2 deviations combined or a deviation on a foreign layout; distinct = distinct case JSON / image hash.",
         assumptions: &["the 23 injectors transcribe the deviations the library's comments and tests document as tolerated", "deviations are located on the base image with the independent parser"],
         quick_cases: 2000,
         thorough_cases: 25000,
